@@ -1,4 +1,5 @@
 import Cadence.Proofs.QueueProps
+import Cadence.Proofs.Queue0Run
 /-!
 # C15 — queuing sink counters are consistent with what happened
 
@@ -31,5 +32,18 @@ theorem queued_never_wraps (a b : Nat) : queuedOf a b ≤ a ∧ (a < 2 ^ 64 → 
 -- non-vacuity: drained momentarily ahead of submitted (try_send done, count not yet) still gives 0
 example : ((runLabels (init none false : St Nat) [.emitTry 0 1, .wCheck, .wRecv, .wCount]).map
     (fun s => (s.submitted, s.drained, queuedOf s.submitted s.drained))) = some (0, 1, 0) := by decide
+
+/-- capacity 0 (model `Queue0`, where `submitted` is counted with the successful `try_send`): the
+counters are the numbers of accepted and of handed-over metrics, and a rendezvous queue never holds
+more than the one metric in the worker's hand -/
+theorem rendezvous_counters {poll hh} (s : Queue0.St μ) (h : Queue0.Reachable poll hh s) :
+    s.submitted = s.accepted.length ∧ s.drained = s.wrappedLog.length ∧
+    s.drained ≤ s.submitted ∧ s.submitted ≤ s.drained + 1 := by
+  have hc := Queue0.counters s h
+  have hd := congrArg List.length (Queue0.reachable_inv s h).deliv
+  have hl : (Queue0.inflight s.phase).length ≤ 1 := by
+    cases hp : s.phase <;> simp [Queue0.inflight]; split <;> simp
+  simp only [List.length_append] at hd
+  refine ⟨hc.1, hc.2, ?_, ?_⟩ <;> omega
 
 end C15
